@@ -163,7 +163,13 @@ def run(ctx):
     rps = c12thread.build()
     for k, sc in enumerate(c12thread.SCRIPTS[3:6] if ctx.quick else c12thread.SCRIPTS[1:] + c12thread.SCRIPTS_MORE[:2]):
         c12thread.run_script(ctx, rps, sc, "locks%d" % k, True, 300 if ctx.quick else 3000)
+    # publisher: publishing/closing/kicking on one thread against subscriber threads (PublisherConc.tla at lock grain)
+    from checks import c16
+    c16.conc_replay(ctx, tag="lockpub", max_paths_quick=500)
     ctx.assume("view-based RA+relaxed model (no load-buffering / out-of-thin-air executions), writes appended to the modification order, <= 7 messages per location, 2 threads per scenario")
     ctx.assume("plain accesses are where the WMM scenario programs place them (transcribed from the code); compiler transformations are trusted")
     ctx.assume("lock-based components: queue, thread_pool and scheduler (thread mode) are bound by lock-grain replay (a moved/removed/added lock "
-               "operation or a guarded state change after the unlock diverges); publisher lock discipline is not decided by this check")
+               "operation or a guarded state change after the unlock diverges); publisher: publishing, closing and kicking on one thread against "
+               "subscriber threads (blocking, polled and coroutine next(), construction/copy/destruction) is bound by the lock-grain replay of "
+               "PublisherConc.tla (a guarded access moved out of the lock, a method that lost its lock_guard, a wake-up inside the lock, an added or "
+               "removed critical section diverge); data-race freedom of the guarded state then follows from the mutex")
